@@ -272,12 +272,10 @@ def _run(ctx, pq):
 
     # ---------------------------------------------------------------- E: whole datasets
     n_e = 160 if quick else 1500
-    for i in range(n_e):
-        confirm = i < (10 if quick else 40)        # confirmation stream for the known findings
-        case = gen_frame_case(rng, confirm, i)
-        root = os.path.join(ctx.scratch, "e%d" % i)
-        res = check_dataset(case, root, pq, ctx)
-        shutil.rmtree(root, ignore_errors=True)
+    cases = [gen_frame_case(rng, i < (10 if quick else 40), i) for i in range(n_e)]   # first: confirmation/regression streams
+    # forked workers (harness.common.pmap): a native crash or a hang while writing/reading is a failing input
+    results = L.run_dataset_jobs(ctx, check_dataset, cases, "e", _replayable)
+    for case, res in zip(cases, results):
         ctx.case({k: case[k] for k in ("scheme", "on", "rgo", "frame")}, trivial=res.get("trivial", False))
         for k in ("scheme", "rgo_kind", "n_on"):
             ctx.count("E." + k, case["dist"][k])
@@ -638,9 +636,14 @@ def replay(rep):
         print("frame:")
         print(L.frame_from_data(case["frame"]).to_string(max_rows=40))
         print("write(file_scheme=%r, partition_on=%r, row_group_offsets=%r)" % (case["scheme"], case["on"], case["rgo"]))
-        res = check_dataset(case, os.path.join(tmp, "ds"), pq, None, verbose=True)
-        print("PROPERTY FAILS" if res["problems"] else "property holds on this input")
-        return 1 if res["problems"] else 0
+        # in a forked worker: a native crash of the real code is an observation of the replay, not its end
+        out = C.pmap(lambda c: check_dataset(c, os.path.join(tmp, "ds"), L.worker_pq(), None, verbose=True)["problems"],
+                     [case], nproc=1, job_timeout=300)[0]
+        if isinstance(out, dict) and "__crashed__" in out:
+            print("PROPERTY FAILS: the real code did not survive this input:", out["__crashed__"], out.get("tb", ""))
+            return 1
+        print("PROPERTY FAILS" if out else "property holds on this input")
+        return 1 if out else 0
     finally:
         pq.close()
         shutil.rmtree(tmp, ignore_errors=True)
